@@ -126,3 +126,18 @@ Definition restored (k : rkey) (mode : Z) (step : nat) : bool :=
 
 Definition chainm_step (k : rkey) (mode ltf : Z) (tags : list Z) : chain_ctx -> list Z -> code * nat * chain_ctx :=
   gen_step entry_iter (restored k mode) (entries mode ltf tags).
+
+(* ber_decode_primitive (asn_codecs_prim.c) for a member that tags a reference to a primitive type in place:
+   ber_check_tags WITHOUT a restart context (every call starts afresh; consumed = 0 unless RC_OK) with the member's
+   tag_mode and last_tag_form = 0, then the whole contents must be in the window.  tag_mode 0 with one tag is
+   Resume.prim_step. *)
+Definition primm_step (mode : Z) (tags : list Z) (c : prim_ctx) (w : list Z) : code * nat * prim_ctx :=
+  match gen_loop entry_iter (entries mode 0 tags) w (-1) 0 0 O O with
+  | (OK, k, cx) =>
+      let len := cleft cx in
+      let rest := skipn k w in
+      if len <=? zlen rest then (OK, (k + Z.to_nat len)%nat, Some (firstn (Z.to_nat len) rest))
+      else (MORE, O, c)
+  | (MORE, _, _) => (MORE, O, c)
+  | (FAIL, _, _) => (FAIL, O, c)
+  end.
